@@ -316,6 +316,14 @@ where
             return Err(anyhow!("invalid signature in trampoline invoice"));
         }
 
+        // The invoice must be for the payment hash of the htlc: the preimage
+        // obtained by paying the invoice is used to settle this htlc.
+        if AsRef::<[u8]>::as_ref(invoice.payment_hash()) != req.htlc.payment_hash.as_slice() {
+            return Err(anyhow!(
+                "payment hash of trampoline invoice does not match htlc payment hash"
+            ));
+        }
+
         // Note that this may panic if the signature is not checked.
         let payee = invoice.get_payee_pub_key();
 
